@@ -202,6 +202,16 @@ def main():
             if bad or r0[6] != r1[6]:
                 viol("galilean", elements=els, front="c" if front is call_c else "python", components=["x", "y", "z", "vx", "vy", "vz"][bad[0]] if bad else "m",
                      at_rest=r0, moving_primary=r1, primary=pv)
+    # ---- range of the Pal inclination components: accepted iff ix^2 + iy^2 <= 4, by both front ends alike (no NaN particle either way)
+    for ixv, iyv in ((0.0, 2.5), (-2.0, 2.0), (0.1, 3.0), (0.0, -2.1), (2.5, 0.0), (1.5, 1.5), (3.0, 0.1), (1.9, 0.5), (1.5, 1.3), (-1.2, 1.5), (0.5, -1.9), (0.3, 0.2), (2.0, 0.0), (0.0, -2.0)):
+        kw = {"m": 1e-3, "a": 1.3, "h": 0.1, "k": -0.05, "l": 0.7, "ix": ixv, "iy": iyv, "primary": sim.particles[0].copy()}
+        valid = ixv * ixv + iyv * iyv <= 4.0
+        for front in (call_c, call_py):
+            c, b, isn, msg = front(sim, kw)
+            res["values"] += 1
+            if (c is None) != valid or (c is None and isn):
+                viol("pal-range", ix=ixv, iy=iyv, front="c" if front is call_c else "python", specified="accepted" if valid else "rejected",
+                     got="accepted" if c is None else "rejected (%s)" % msg, nan=isn)
     # ---- value classes of a structurally valid classical call
     for e2, ap, by, pm, want in V_rows:
         e = e2 / 2.0
